@@ -1,3 +1,4 @@
+pub mod c08;
 pub mod c15;
 
 /// re-execute a recorded replay file natively; exit code 1 if the violation reproduces, 0 if not
